@@ -340,7 +340,7 @@ pub fn run(run: &'static Run) {
         histories: all sequences of <= 4 (quick) / 5 (thorough) operations over {acquire File, acquire Marker, write, close, commit, drop} x 2-3 holders + 'another process tries', \
         on one resource, against the model 'at most one holder; content = last committed value'; non-trivial = a history in which an acquisition was refused");
     run.assume("process-level interleavings inside one acquire (between its syscalls) are not enumerated: exclusivity rests on a single O_EXCL open; histories interleave whole operations");
-    run.budget_secs(run.pick(40.0, 600.0));
+    run.budget_secs(run.pick(50.0, 1500.0));
     let toks: Vec<&[u8]> = vec![b"a", b".", b" ", b"\xff", b"\xc3", b"lock", b".lock", "é".as_bytes()];
     let maxlen = run.pick(3, 4);
     run.sub_with(
@@ -411,4 +411,170 @@ pub fn run(run: &'static Run) {
         |h: &History| eval_history(run, h),
     );
     run.require("some history had a refused acquisition", run.over_budget() || run.outcome_count("contended:3") > 0);
+    thread_schedules(run);
+}
+
+// ---------------------------------------------------------------------------------------------------------------------------
+// Part 3 (E3): thread schedules. 2-3 real threads acquire / write / commit / drop locks on one or two resources below not yet
+// existing directories, on the controlled scheduler (harness/vsched/src/c22s.rs, built with the scheduler shim): ALL interleavings
+// with at most b preemptions. One process per scenario, because gix-tempfile's registry is a process-wide static.
+
+#[derive(Serialize, Deserialize, Hash, Clone, Debug)]
+struct SchedCase {
+    name: String,
+    threads: Vec<Vec<(String, usize)>>,
+    sibling: bool,
+    depth: usize,
+    resource_exists: bool,
+    bound: usize,
+    secs: u64,
+    schedule: Option<Vec<usize>>,
+}
+
+#[derive(Deserialize, Debug)]
+struct SchedReport {
+    executions: u64,
+    decisions: u64,
+    max_steps: usize,
+    complete: bool,
+    outcomes: std::collections::BTreeMap<String, u64>,
+    failure: Option<(Vec<usize>, String)>,
+    per_bound: Vec<(usize, u64)>,
+}
+
+static SCHED_PER_CASE: std::sync::Mutex<Vec<String>> = std::sync::Mutex::new(Vec::new());
+
+fn thread_schedules(run: &'static Run) {
+    run.rule("thread schedules: 2 threads x 1 operation (every pair over {write+commit, write+close+commit, write+drop, marker+drop, commit without boundary}) and \
+        selected 2x2 / 3x1 scenarios, on the same resource, on two resources in one directory and on two resources in sibling directories, 0..2 directories to create, \
+        resource existing or not; ALL interleavings with at most b preemptions (b = 0,1,2; thorough 3) of the scheduling points {each directory creation/removal step, lock file creation, \
+        rename, removal, every registry mutex operation, the id counter}, bounds iterated 0,1,.. inside one process per scenario; oracle per execution: never two holders of one resource, no lock file left, resource content = \
+        value of the last committing holder (or untouched), exact directory listing below the boundary when no acquisition failed with an io error");
+    let q = run.quick();
+    let secs = run.pick(30, 900) as u64;
+    let ops = ["WriteCommit", "WriteCloseCommit", "WriteDrop", "MarkDrop", "NoBoundaryCommit"];
+    let mut cases: Vec<SchedCase> = Vec::new();
+    let mut add = |name: String, threads: Vec<Vec<(&str, usize)>>, sibling: bool, depth: usize, exists: bool, bound: usize| {
+        cases.push(SchedCase {
+            name,
+            threads: threads.into_iter().map(|t| t.into_iter().map(|(o, r)| (o.to_string(), r)).collect()).collect(),
+            sibling,
+            depth,
+            resource_exists: exists,
+            bound,
+            secs,
+            schedule: None,
+        });
+    };
+    let max_bound = if q { 2 } else { 3 };
+    {
+        let bound = max_bound;
+        for (i, a) in ops.iter().enumerate() {
+            for b in &ops[i..] {
+                for (r2, sibling) in [(0usize, false), (1, false), (1, true)] {
+                    for depth in 0..=2usize {
+                        for exists in [false, true] {
+                            if sibling && depth == 0 {
+                                continue;
+                            }
+                            // without a boundary nothing is created: the directories must be there
+                            if (*a == "NoBoundaryCommit" || *b == "NoBoundaryCommit") && depth > 0 && !exists {
+                                continue;
+                            }
+                            add(format!("{a}|{b}"), vec![vec![(*a, 0)], vec![(*b, r2)]], sibling, depth, exists, bound);
+                        }
+                    }
+                }
+            }
+        }
+    }
+    // two operations per thread, and three threads
+    let two: Vec<Vec<Vec<(&str, usize)>>> = vec![
+        vec![vec![("WriteCommit", 0), ("WriteDrop", 0)], vec![("WriteDrop", 0), ("WriteCloseCommit", 0)]],
+        vec![vec![("WriteDrop", 0), ("WriteCommit", 1)], vec![("WriteDrop", 1), ("WriteCommit", 0)]],
+        vec![vec![("MarkDrop", 0), ("WriteCommit", 0)], vec![("WriteCommit", 0), ("MarkDrop", 1)]],
+        vec![vec![("WriteCommit", 0)], vec![("WriteDrop", 0)], vec![("MarkDrop", 0)]],
+        vec![vec![("WriteCommit", 0)], vec![("WriteDrop", 1)], vec![("WriteCloseCommit", 0)]],
+        vec![vec![("WriteDrop", 0)], vec![("WriteDrop", 1)], vec![("WriteDrop", 0)]],
+    ];
+    for (i, t) in two.iter().enumerate() {
+        let three = t.len() == 3;
+        {
+            let bound = if q { if three { 1 } else { 2 } } else { if three { 2 } else { 3 } };
+            for sibling in [false, true] {
+                add(format!("multi-{i}"), t.clone(), sibling, 2, false, bound);
+            }
+            if !q {
+                add(format!("multi-{i}"), t.clone(), false, 1, true, bound);
+            }
+        }
+    }
+    cases.sort_by_key(|c| c.bound);
+    run.sub_with("thread-schedules", vkit::Opts::default().chunk(64), |emit| cases.into_iter().for_each(|c| emit(c)), |c: &SchedCase| eval_sched(run, c));
+    let mut per = SCHED_PER_CASE.lock().unwrap().clone();
+    per.sort();
+    run.cov("thread_schedule_explorations", per);
+}
+
+fn eval_sched(run: &Run, c: &SchedCase) -> Verdict {
+    let bin = std::env::var_os("VERIF_BIN_VSCHED").unwrap_or_else(|| vkit::machinery!("VERIF_BIN_VSCHED is not set (./check builds vsched with the scheduler shim and sets it)"));
+    let json = serde_json::to_string(c).unwrap();
+    let mut cmd = std::process::Command::new(&bin);
+    cmd.arg("--c22-sched").arg(&json).stdin(std::process::Stdio::null()).stderr(std::process::Stdio::piped());
+    if c.schedule.is_some() {
+        cmd.env("VSCHED_TRACE", "1");
+    }
+    let out = cmd.output().unwrap_or_else(|e| vkit::machinery!("cannot run {bin:?}: {e}"));
+    let stdout = String::from_utf8_lossy(&out.stdout);
+    let Some(line) = stdout.lines().find_map(|l| l.strip_prefix("C22S-REPORT ")) else {
+        vkit::machinery!("scheduler child gave no report (status {:?}): {}", out.status, String::from_utf8_lossy(&out.stderr).chars().rev().take(1500).collect::<String>().chars().rev().collect::<String>())
+    };
+    let rep: SchedReport = serde_json::from_str(line).unwrap_or_else(|e| vkit::machinery!("bad report: {e}"));
+    run.mc_transitions(rep.decisions);
+    run.mc_validated(rep.executions);
+    // distinct schedules = executions at the largest bound explored (smaller bounds are subsets of it)
+    let distinct = rep.per_bound.last().map_or(0, |x| x.1);
+    run.mc_states_bulk((0..distinct).map(|i| vkit::hash_of(&(c, i))));
+    for (b, n) in &rep.per_bound {
+        run.cov_add(&format!("thread_schedule_executions_bound_{b}"), *n);
+    }
+    SCHED_PER_CASE.lock().unwrap().push(format!(
+        "{} res2={:?} sibling={} depth={} exists={} bounds=0..={}: executions per bound={:?} decisions={} max_steps={} complete={} outcomes={:?}",
+        c.name, c.threads.last().and_then(|t| t.last()).map(|o| o.1), c.sibling, c.depth, c.resource_exists, c.bound, rep.per_bound, rep.decisions, rep.max_steps, rep.complete, rep.outcomes.keys().collect::<Vec<_>>()
+    ));
+    if let Some((schedule, what)) = rep.failure {
+        if what.starts_with("MACHINERY") {
+            vkit::machinery!("{what}");
+        }
+        let class = what.split(':').next().unwrap_or("violation").to_string();
+        let msg = format!("{what} | threads {:?} depth {} sibling {} exists {} schedule={schedule:?} (choice indices)", c.threads, c.depth, c.sibling, c.resource_exists);
+        if c.schedule.is_some() {
+            if run.is_replay() {
+                eprintln!("{}", String::from_utf8_lossy(&out.stderr));
+            }
+            return bad(&class, msg);
+        }
+        let mut with_schedule = c.clone();
+        with_schedule.schedule = Some(schedule);
+        // evaluate the case again with the schedule fixed: the same schedule must fail the same way (replay is deterministic)
+        return match eval_sched(run, &with_schedule) {
+            Err(_) => {
+                run.violation("thread-schedules", &with_schedule, format!("{class}: {msg}"));
+                ok_trivial("sched:violation-recorded")
+            }
+            Ok(_) => vkit::machinery!("schedule {:?} failed during exploration but not when replayed: {what}", with_schedule.schedule),
+        };
+    }
+    if c.schedule.is_some() {
+        return ok("sched:replayed-without-failure");
+    }
+    if !rep.complete {
+        run.cap_hit(format!("thread-schedules {} bound {} not finished within {} s ({} executions done)", c.name, c.bound, c.secs, rep.executions));
+        return ok("sched:capped");
+    }
+    if rep.outcomes.is_empty() {
+        return bad("vacuous", "no execution completed");
+    }
+    let contended = rep.outcomes.keys().any(|k| k.contains("locked"));
+    ok(format!("sched:b{}:{}:outcomes={}", c.bound, if contended { "contended" } else { "uncontended" }, rep.outcomes.len().min(6)))
 }
